@@ -140,6 +140,13 @@ def o_cont_pp(a):
     if a[-1] < 0: g = -g
     return expect([g, [c // g for c in a]], 'cont_pp(%r)' % a)
 
+def o_content(a):
+    # Polynomial::content is the first component of cont_pp: the SIGNED content (sign of the leading coefficient)
+    a = strip(a)
+    if not a: return expect(0, 'content(0)')
+    g = content(a)
+    return expect(-g if a[-1] < 0 else g, 'content(%r)' % a)
+
 # ------------------------------------------------------------------ generators
 
 def rand_coef(rng, bits):
@@ -198,6 +205,7 @@ def z_unary(out, a, rng, tag):
     out.append(Case('zp_diff', line('zp_diff', a), oracle=expect(p_diff(sa), 'differential'), nontrivial=nt, tag=tag + ':diff'))
     out.append(Case('zp_deg', line('zp_deg', a), oracle=expect(len(sa) - 1 if sa else USIZE_MAX, 'deg'), nontrivial=nt, tag=tag + ':deg'))
     out.append(Case('zp_cont_pp', line('zp_cont_pp', a), oracle=o_cont_pp(a), nontrivial=nt, tag=tag + ':cont_pp'))
+    out.append(Case('zp_content', line('zp_content', a), oracle=o_content(a), nontrivial=nt, tag=tag + ':content'))
     for x in (0, 1, -1, 2, -3, rand_coef(rng, 128)):
         out.append(Case('zp_of', line('zp_of', a, x), oracle=expect(p_eval(sa, x), 'of'), nontrivial=nt, tag=tag + ':of'))
     for i in (0, 1, len(sa) - 1 if sa else 0, len(sa), len(a) + 3):
@@ -295,6 +303,7 @@ def cases(rng, tier):
         a = strip(rand_poly(rng, 12, 64)); c = rng.choice([1, -1, 2, -6, 30, rand_coef(rng, 64) or 1])
         p = [c * x for x in a]
         out.append(Case('zp_cont_pp', line('zp_cont_pp', p), oracle=o_cont_pp(p), nontrivial=nz(p), tag='content-scaled'))
+        out.append(Case('zp_content', line('zp_content', p), oracle=o_content(p), nontrivial=nz(p), tag='content-scaled'))
     # ---- rationals
     QV = [Fraction(-2), Fraction(-1, 2), Fraction(0), Fraction(1, 2), Fraction(2, 3), Fraction(1), Fraction(3)]
     qraw = [list(t) for n in range(0, 3 if not th else 4) for t in itertools.product(QV if not th else QV[1:6], repeat=n)]
